@@ -15,5 +15,8 @@ InScope ==
     /\ (c.skip # "none" => Skippable(c))
     /\ (c.carrier = "const_type" => c.chain = <<>> /\ c.construct \in {"u64", "i64", "usize", "isize"})
     /\ (c.construct = "tuple3_nested" => Len(c.chain) <= 1)
-Emit == InScope => PrintT(<<"REPLAY", ToJson([case |-> c, must_reject |-> MustReject(c)])>>)
+\* binary runs: the offending item next to valid items in one file, or alone in its own file that reaches the collector before /
+\* after a file of valid items (arrival forced through the order hook). The required outcome does not depend on the layout.
+Layouts == {"one_file", "bad_file_first", "bad_file_last"}
+Emit == InScope => PrintT(<<"REPLAY", ToJson([case |-> c, must_reject |-> MustReject(c), layouts |-> Layouts])>>)
 =============================================================================
